@@ -316,6 +316,10 @@ fn toy<F: PrimeField>(rng: &mut Rng, th: bool, o: &mut Out) {
         for len in [0usize, 1, 2, 3, (1 << nv) + 1, 1 << (nv + 1)] { if len != 1 << nv { let t: Vec<F> = (0..len).map(|i| F::from(i as u64 + 1)).collect(); d_unary(o, &p, nv, &t); } }
         s_unary(o, &p, nv, &[(1usize << nv, F::one())]);
         s_unary(o, &p, nv, &[(0usize, F::one()), ((1usize << nv) + 3, F::zero())]);
+        // explicit zero entries (is_zero must look at the values, not at the number of entries)
+        s_unary(o, &p, nv, &[(0usize, F::zero())]);
+        s_unary(o, &p, nv, &[(0usize, F::one()), (0usize, F::zero())]);
+        s_unary(o, &p, nv, &[(0usize, F::zero()), (0usize, F::one())]);
         { let t: Vec<F> = (0..1usize << nv).map(|i| F::from(i as u64 + 1)).collect(); let e = nonzero_ents(&t);
           for len in 0..=nv + 2 { if len != nv { let pt: Vec<F> = (0..len).map(|i| F::from(i as u64 + 2)).collect();
               d_eval(o, &p, nv, &t, &pt); s_eval(o, &p, nv, &e, &pt); if len > nv { d_fix(o, &p, nv, &t, &pt); s_fix(o, &p, nv, &e, &pt); } } } }
